@@ -234,7 +234,7 @@ CallFailed(e) ==
   \* (arithmetic on whole numbers near 2^53 / 2^63 / 2^64 is exact only "to within the precision of the operands": there the
   \*  result legitimately depends on the mantissa precision of the representation; judged by C02.ResultIsRefAllReps instead)
   \* (opaque decimals: their representations are different numbers by construction)
-  \cup (IF Len(e.rr) = 1 \/ Has(e.x, "dup") \/ (\E i \in 1..Len(e.a) : IsNumK(e.a[i]) /\ Has(e.a[i].v, "dec")) \/ (e.api \in NumBinArith /\ \E i \in 1..Len(e.a) : IsNumK(e.a[i]) /\ BigLm(e.a[i].v)) THEN {} ELSE {"C20.RepInvariant"})
+  \cup (IF Len(e.rr) = 1 \/ Has(e.x, "dup") \/ (\E i \in 1..Len(e.a) : IsNumK(e.a[i]) /\ Has(e.a[i].v, "dec")) \/ (\E i \in 1..Len(e.rr) : e.rr[i].ok /\ NumUnranked(e.rr[i].val)) \/ (e.api \in NumBinArith /\ \E i \in 1..Len(e.a) : IsNumK(e.a[i]) /\ BigLm(e.a[i].v)) THEN {} ELSE {"C20.RepInvariant"})
   \cup (IF e.r.ok /\ ~WellFormedR(e.r) THEN {"C06.WellFormed"} ELSE {})
   \* results computed from every physical representation of the operands (non-normalized input strings, other precisions) are well-formed too
   \cup (IF \E i \in 1..Len(e.rr) : e.rr[i].ok /\ ~WellFormedR(e.rr[i]) THEN {"C06.WellFormed"} ELSE {})
